@@ -179,13 +179,15 @@ def uniform_faces(rng, cls, a, n):
 
 
 def gen_config(rng, cls, nmax=3, closed=False, allow_periodic=True, kinds=None, uniform_periodic=True,
-               uniform=False, nmin=1, nlim=None):
+               uniform=False, nmin=1, nlim=None, faces_override=None, force_periodic=None):
     d = drive.dim(cls)
     cap = nmax if d < 3 else min(nmax, 2 if not uniform else 3)
     if uniform:
         faces = [uniform_faces(rng, cls, a, rng.randint(min(nmin, cap), cap)) for a in range(d)]
     else:
         faces = [pick_faces(rng, cls, a, rng.randint(1, cap)) for a in range(d)]
+    if faces_override is not None:
+        faces = [list(f) for f in faces_override]
     dims = [len(f) - 1 for f in faces]
     cfg = {"cls": cls, "aunit": "sur" if cls == "SphericalGrid3D" else "rad",
            "faces": [[enc(x) for x in f] for f in faces]}
@@ -212,6 +214,8 @@ def gen_config(rng, cls, nmax=3, closed=False, allow_periodic=True, kinds=None, 
             uni = (faces[a][1] - faces[a][0]) == (faces[a][-1] - faces[a][-2])
             if lab != "r" and not (cls == "SphericalGrid3D" and lab == "theta") and uni and rng.random() < 0.7:
                 per_axes.append(a)
+        if force_periodic is not None:
+            per_axes = sorted(force_periodic)
         for key, vals in (("D", [1, 2, 3]), ("u", [-2, -1, 1, 2])):
             for a in per_axes:
                 comp = cfg[key][a]
@@ -254,6 +258,8 @@ def gen_config(rng, cls, nmax=3, closed=False, allow_periodic=True, kinds=None, 
                and (uniform_ends or not uniform_periodic))
         if closed == "periodic":
             per = a in per_axes
+        elif force_periodic is not None:
+            per = a in force_periodic
         flag = rng.choice(["lo", "hi", "both"]) if per else None
         for s, high in ((lo, False), (hi, True)):
             shp = trans_shape(dims, a)
@@ -368,6 +374,40 @@ def systematic_configs(seed=0, classes=None, variants=(True, False)):
                 cfg["closed"] = False
                 cfg["systematic"] = True
                 out.append(cfg)
+    return out
+
+
+def periodic_systematic_configs(closed=False, seed=0):
+    """deterministic family: for every grid class and every axis that can be periodic, that axis periodic
+    (two equal cells) and every OTHER axis with two cells of different sizes - the end-cell ratios of the
+    axes differ pairwise (1 on the periodic axis, 2 and 1/2 on the others), which is what a periodic
+    branch that looks at the wrong axis gets wrong"""
+    import random as _r
+    out = []
+    for cls in drive.CLASSES:
+        d = drive.dim(cls)
+        for pa in range(d):
+            lab = drive.AXIS_LABELS[cls][pa]
+            if lab == "r" or (cls == "SphericalGrid3D" and lab == "theta"):
+                continue
+            faces, k = [], 0
+            for a in range(d):
+                la = drive.AXIS_LABELS[cls][a]
+                lo = Fr(1) if la in ("r", "theta") else Fr(0)
+                if a == pa:
+                    steps = [Fr(1), Fr(1)]
+                elif cls == "SphericalGrid3D" and la == "theta":
+                    lo, steps = Fr(0), [Fr(2), Fr(1)]
+                elif cls == "SphericalGrid3D" and la == "r":
+                    lo, steps = Fr(1), [Fr(1), Fr(2)]
+                else:
+                    steps = [[Fr(1), Fr(2)], [Fr(2), Fr(1)]][k % 2]
+                    k += 1
+                faces.append([lo, lo + steps[0], lo + steps[0] + steps[1]])
+            rng = _r.Random(hash((seed, cls, pa, str(closed))) & 0xffffffff)
+            cfg = gen_config(rng, cls, closed=closed, faces_override=faces, force_periodic={pa}, nmax=2)
+            cfg["systematic"] = "periodic"
+            out.append(cfg)
     return out
 
 
